@@ -661,6 +661,22 @@ for _fn, _body, _c in (("__jwks_load_strn", "jwk_set_t *s; const char *j; size_t
         replace=["jwks_process/contract_rec_jwks_process"], assumed_contracts=["jwks_process/contract_rec_jwks_process"],
         stubs=LIBC + ["stubs/alloc.c", "stubs/jansson.c"], defines=["VERIF_TU_JWKS", "VERIF_ALLOC_RECORD_FAIL"], flags=[],
         expect=[_c + "\\.postcondition\\.5", "contract_rec_jwks_process\\.precondition"], timeout=600))
+
+# ---- accessors of jwks.c: what the application observes of an imported key (C08), error reporting (C14) ----
+_GETTERS = [("C08", "jwks_item_is_private"), ("C14", "jwks_item_error"), ("C14", "jwks_item_error_msg"), ("C08", "jwks_item_curve"),
+            ("C08", "jwks_item_kid"), ("C08", "jwks_item_alg"), ("C08", "jwks_item_kty"), ("C08", "jwks_item_use"), ("C08", "jwks_item_key_ops"),
+            ("C08", "jwks_item_pem"), ("C08", "jwks_item_key_bits")]
+def _acc(prop, fn, body, n=1):
+    c = "contract_%s_%s" % (prop, fn)
+    return U("%s.%s" % (prop, fn), "%s (libjwt/jwks.c)" % fn, JWKS_C, "contracts/jwks_c.h", body, "%s/%s" % (fn, c),
+             stubs=LIBC, defines=["VERIF_TU_JWKS"], flags=[], expect=[c + "\\.postcondition\\.%d" % n], timeout=120)
+ACCESSORS = [_acc(p, f, "const jwk_item_t *it; %s(it);" % f) for p, f in _GETTERS] + [
+    _acc("C08", "jwks_item_key_oct", "const jwk_item_t *it; const unsigned char **b; size_t *l; jwks_item_key_oct(it, b, l);", 3),
+    _acc("C14", "jwks_error", "const jwk_set_t *s; jwks_error(s);"),
+    _acc("C14", "jwks_error_msg", "const jwk_set_t *s; jwks_error_msg(s);"),
+    _acc("C14", "jwks_error_clear", "jwk_set_t *s; jwks_error_clear(s);", 2)]
+for _u in ACCESSORS:
+    P[_u["name"][:3]]["units"].append(_u)
 _REC_DOERS = ["__getter/contract_rec___getter", "__setter/contract_rec___setter", "__deleter/contract_rec___deleter"]
 for _w in ("header_get", "header_set", "claim_get", "claim_set"):
     P["C15"]["units"].append(U("C15.jwt_%s" % _w, "jwt_%s -> __run_it (libjwt/jwt-setget.c)" % _w, SETGET_C, "contracts/jwt_setget_c.h",
